@@ -156,6 +156,17 @@ def classify_int_source(prog, ev, t, validators):
         return "loop", ""
     if t.k == "adt" and t.a[1] == "Some":
         return classify_int_source(prog, ev, t.a[2][0][1], validators)
+    # `opt.map(|x| -> Result<i64, _> { validate(..) }).transpose()?` : None, or Some of what the closure's Ok carries
+    if t.k == "try" and t.a[0].k == "call" and t.a[0].a[0].endswith("::transpose") and len(t.a[0].a) == 2:
+        m = t.a[0].a[1]
+        if m.k == "call" and m.a[0] == "core::option::Option::<T>::map" and len(m.a) == 3 and m.a[2].k in ("closure", "fnitem"):
+            body = ev.apply(m.a[2], [Tm("proj", (m.a[1], "Option::Some.0"))])
+            if body is not None:
+                if body.k == "adt" and body.a[1] == "Ok":
+                    body = body.a[2][0][1]
+                elif body.k == "call" and body.a[0] in validators:
+                    body = Tm("try", (body,))
+                return classify_int_source(prog, ev, body, validators)
     if t.k == "try" and t.a[0].k == "call" and t.a[0].a[0] in validators:
         lo, hi = validators[t.a[0].a[0]]
         if lo >= IJSON[0] and hi <= IJSON[1]:
@@ -236,6 +247,11 @@ def int_slot_sites(prog, ev):
         for x in subterms(t):
             if x.k == "adt":
                 cands.append(x)
+        for cp in prog.closures_in(p):
+            try:
+                cands.extend(x for x in subterms(ev.summary(cp)) if x.k == "adt")
+            except Exception:
+                pass
         for c in trace:
             for a in c.a[1:]:
                 if isinstance(a, Tm):
